@@ -128,6 +128,27 @@ Inv_C10H ==
      IN free.st.status = "SUCCESS" =>
           [cut EXCEPT !.mode = "x", !.status = "x"] = [free.lg EXCEPT !.mode = "x", !.status = "x"]
 
+\* ---- C18: editing absence steps on the specification's own results -------------------------
+EditLists == {<<0>>, <<1>>, <<0, 1>>, <<1, 3>>, <<2, 40>>, <<3, 2, 1>>}
+Inv_C18 ==
+  AtEnd =>
+    \A L \in EditLists:
+       LET ins == InsertAbsenceF(cfg, lg, L)
+           cut == RemoveAbsenceF(ins)
+       IN /\ AllTrue(C08_L(cfg, opts, ins)) /\ AllTrue(C08_L(cfg, opts, cut))
+          /\ \A s \in ToSet(L): ~Mem(lg.absL, s) /\ s < ins.time => C18_NoWorkRow(cfg, ins, s)
+          /\ (lg.absL = <<>> => cut = lg)
+
+\* ---- C17: the backward run of the specification (on BackwardCfg) respects FS links in forward time
+Inv_C17 ==
+  pc = "init" =>
+    \A due \in BOOLEAN:
+       LET bw == SimulateF(BackwardCfg(cfg, due), opts)
+           n == Len(cfg.tasks)
+           fwd == ReverseLogsF(bw.lg)
+       IN bw.st.status = "SUCCESS" =>
+            C17_FsOrder(cfg, [fwd EXCEPT !.ts = [t \in 1..n |-> fwd.ts[t]]])
+
 \* ---- C15: re-entering the loop at the same time changes nothing --------------------------
 \* (resume repeats the update phase on the state the paused run left behind)
 Inv_C15 == pc = "updated" => UpdateF(cfg, st) = st
